@@ -32,7 +32,8 @@ theorem range_eq (ops : NumOps α) (a b step : α) :
   by_cases hs : step = 0
   · simp [hs]
   · simp only [hs, decide_not, decide_false, Bool.not_false, Bool.not_true, Bool.false_eq_true, if_false,
-      decide_eq_true_eq, Bool.and_eq_true, Bool.or_eq_true, ne_eq, not_false_eq_true, decide_true, gt_iff_lt]
+      decide_eq_true_eq, Bool.and_eq_true, Bool.or_eq_true, ne_eq, not_false_eq_true, decide_true, gt_iff_lt,
+      Bool.not_eq_true', decide_eq_false_iff_not]
 
 /-- on exactly representable rationals (the `f64` reading) the regenerated `range` yields
 `countBefore a b step` elements: the number of `k` with `a + k·step` strictly before `b` -/
